@@ -47,9 +47,9 @@ Theorem C05_listed_methods :
     In im (missing_methods td d require_ptr) <-> In im (id_methods d) /\ method_ok td require_ptr im = false.
 Proof. exact missing_methods_spec. Qed.
 Theorem C05_method_has_counterpart :
-  forall td require_ptr im, NoDup (map tm_name (td_methods td)) ->
+  forall td require_ptr im, NoDup (map tm_id (td_methods td)) ->
     (method_ok td require_ptr im = true <->
-     exists tm, (In tm (td_methods td) /\ (require_ptr = true \/ tm_value tm = true)) /\ tm_name tm = im_name im /\
+     exists tm, (In tm (td_methods td) /\ (require_ptr = true \/ tm_value tm = true)) /\ tm_id tm = im_id im /\
                 signatures_match (tm_sig tm) (im_sig im) = true).
 Proof. exact method_ok_spec. Qed.
 
@@ -103,9 +103,9 @@ Definition tint := YBasic "int" "int".
 Definition tbytes1 := YSlice (YBasic "uint8" "byte") "[]byte".
 Definition tbytes2 := YAlias "x.Bytes" (YSlice (YBasic "uint8" "uint8") "[]uint8").
 Definition mk_sig ps := {| s_params := ps; s_results := []; s_variadic := false |}.
-Definition ex_iface := {| id_pkg := "x"; id_name := "I"; id_methods := [{| im_name := "M"; im_sig := mk_sig [YPtr (YPtr tint); tbytes1] |}] |}.
+Definition ex_iface := {| id_pkg := "x"; id_name := "I"; id_methods := [{| im_name := "M"; im_sig := mk_sig [YPtr (YPtr tint); tbytes1]; im_pkg := "" |}] |}.
 Definition ex_tt (sig_t : sig) (value : bool) : typetable :=
-  {| tt_ifaces := [ex_iface]; tt_types := [{| td_name := "T"; td_methods := [{| tm_name := "M"; tm_sig := sig_t; tm_value := value |}] |}] |}.
+  {| tt_ifaces := [ex_iface]; tt_types := [{| td_name := "T"; td_methods := [{| tm_name := "M"; tm_sig := sig_t; tm_value := value; tm_pkg := "" |}] |}] |}.
 Definition ex_ann (ptr : bool) := {| ia_type := "T"; ia_pos := 7%Z; ia_iface := "I"; ia_pkgname := ""; ia_ptr := ptr; ia_fullpath := "x"; ia_notfound := false |}.
 Example C05_nonvacuous :
   map d_code (impl_candidates (ex_tt (mk_sig [YPtr tint; tbytes1]) true) "x" [] [ex_ann false]) = ["IMPL03"] /\
